@@ -22,6 +22,7 @@ type C06Params struct {
 	Explore bool     // explore the interleavings of the panicking item with the healthy ones and the stop
 	Chain   bool     // the module depends on a second, healthy module (which stops after it and starts before it)
 	Panics  int      // how often the item panics in a row (0 = once); the same item is run again after the first panic
+	FullCh  bool     // the error reporting channel is full and nobody receives: reporting must not block the panicking item
 	Mgmt    bool     // service worker only: module management is on, the module is disabled during the back-off and enabled again afterwards (no management pass in between)
 }
 
@@ -32,6 +33,9 @@ func (p C06Params) Name() string {
 	}
 	if p.Mgmt {
 		n += "/mgmt"
+	}
+	if p.FullCh {
+		n += "/fullch"
 	}
 	return n
 }
@@ -47,6 +51,8 @@ type c06unc struct {
 }
 
 var c06err = errors.New("seeded panic error value")
+
+var c06me = &ModuleError{Message: "seeded module error used as panic value", ModuleName: "other", TaskName: "nested", TaskType: "worker", Severity: "error"}
 
 // c06panic panics with the configured value and returns (for the oracle) a predicate recognising it.
 func c06panic(value string) {
@@ -72,6 +78,9 @@ func c06panic(value string) {
 		panic(error(pe))
 	case "uncomparable":
 		panic(c06unc{[]int{1, 2}})
+	case "moduleerror":
+		// a panic value that is itself a module error (e.g. a re-panicked error of a nested managed call)
+		panic(c06me)
 	}
 	panic("unknown panic value kind " + value)
 }
@@ -97,6 +106,8 @@ func c06matches(value string, pv interface{}) bool {
 	case "typednil":
 		pe, ok := pv.(*os.PathError)
 		return ok && pe == nil
+	case "moduleerror":
+		return pv == interface{}(c06me)
 	case "uncomparable":
 		u, ok := pv.(c06unc)
 		return ok && len(u.S) == 2 && u.S[0] == 1 && u.S[1] == 2
@@ -126,6 +137,10 @@ func VerifC06(p C06Params) *vsched.Scenario {
 	sc.Body = func() {
 		s := c06
 		reports := make(chan *ModuleError, 16)
+		if p.FullCh {
+			reports = make(chan *ModuleError, 1)
+			reports <- &ModuleError{Message: "filler"}
+		}
 		SetErrorReportingChannel(reports)
 		lifecycle := func(phase string) func() error {
 			if p.Kind != phase {
@@ -182,6 +197,9 @@ func VerifC06(p C06Params) *vsched.Scenario {
 			}
 		}
 		checkChannel := func() {
+			if p.FullCh {
+				return // nothing can arrive on a full channel; the clause here is that nobody blocks
+			}
 			// the panic was reported through the module error channel and is the last reported error
 			var got *ModuleError
 			for {
